@@ -467,6 +467,25 @@ func PrivateCallers(p *Program) []string {
 	return out
 }
 
+// InlinedAway reports that the private function spec of the reference tree is gone and its only reference caller still exists (its
+// body now lives there): rules about the helper as a separate unit have no subject, rules about its body apply to the caller.
+func (c *Ctx) InlinedAway(spec string) bool {
+	if c.specExists(spec) {
+		return false
+	}
+	cs := RefCallers[spec]
+	return len(cs) == 1 && c.specExists(cs[0])
+}
+
+// MethodIfExists is Method for a member of a *permitted* table (a function the rule merely tolerates): nil when it no longer exists.
+func (c *Ctx) MethodIfExists(typeSpec, name string) *types.Func {
+	if !c.specExists(typeSpec + "." + name) {
+		c.Note("tolerated method %s.%s no longer exists", typeSpec, name)
+		return nil
+	}
+	return c.Method(typeSpec, name)
+}
+
 // MethodOpt is Method for a private method that may have been inlined away: it returns nil (instead of failing the anchor) when the
 // method is gone and the reference tree knows exactly one caller of it that still exists.
 func (c *Ctx) MethodOpt(typeSpec, name string) *types.Func {
